@@ -26,12 +26,12 @@ add("C09", "exploration",
 
 add("C01", "exploration",
     "property-based testing (Hypothesis-generated data sets/configurations) with exact enumeration of all random outcomes: transition matrix K over all clone trees, oracle pi K = pi to 1e-9",
-    "For each generated case the sampler's exact transition matrix over ALL clone trees (n<=4) is computed by enumerating every random outcome, so bias of 1e-9 is visible (tests: 3e-2). Bounded by n<=4 and the number of generated cases; not an absence proof.",
+    "For each generated case the sampler's exact transition matrix over ALL clone trees (n<=4) is computed by enumerating every random outcome, so bias of 1e-9 is visible (tests: 3e-2); both wirings, pre-histories with the concentration changed in place on the same objects, and two run-loop iterations across a concentration update. Bounded by n<=4 and the number of generated cases; not an absence proof.",
     "Trusts EnumRNG (rows must sum to 1, self-checked) and numpy linear algebra; pi is the code's own log_p_one (C03 checks it).",
     "DESIGN.md section 5 C01")
 add("C04", "exploration",
     "property-based testing with exact enumeration of all random outcomes per move (transition matrices over all clone trees; pi K = pi; sweep = product of component kernels)",
-    "Each auxiliary move (data-point with/without outliers, prune-regraft, subtree inner kernel, subtree full move, run-loop sweep composition) is checked separately by exact enumeration on generated data sets with n<=4. One known finding (F7) is listed in known_findings.json.",
+    "Each auxiliary move (data-point with/without outliers, prune-regraft, subtree inner kernel, subtree full move incl. its decomposition into selection x inner kernel and its support, run-loop sweep composition incl. a second sweep after a concentration update) is checked separately by exact enumeration on generated data sets with n<=4. One known finding (F7) is listed in known_findings.json.",
     "Trusts EnumRNG and numpy; pi from the code's log_p_one; subtree-full for n>=3 is a recorded known finding, so new defects confined to that component and size are only caught through subtree-inner and n<=2.",
     "DESIGN.md section 5 C04")
 
@@ -117,12 +117,12 @@ add("C18", "exploration",
     "DESIGN.md section 5 C18")
 add("C19", "exploration",
     "property-based robustness testing over the CLI option cross-product with forced boundary values; exception bucketing by innermost phyclone frame; per-entry structural/finite checks",
-    "Generated valid data sets (synthetic grids or PyClone tables through phyclone.run.run) x boundary-forcing option values: the run must finish and every trace entry must be a well-formed complete tree with finite log_p_one.",
+    "Generated valid data sets (synthetic grids, PyClone tables through phyclone.run.run, and the click CLI) x boundary-forcing option values, plus injected rare-but-real random outcomes (a gamma draw of exactly 0.0) and a 1001-point grid stratum: the run must finish and every trace entry must be a well-formed complete tree with finite log_p_one.",
     "Single chain in-process; grid size 11.",
     "DESIGN.md section 5 C19")
 add("C20", "fault_enumeration",
     "fault injection by exhaustive enumeration of every byte prefix of generated trace files, differential oracle against the complete file's outputs",
-    "For every generated trace (synthetic and real) every prefix length is fed to all 5 summary command variants; each must fail or reproduce the complete file's outputs exactly.",
+    "For every generated trace (synthetic and real) every prefix length of the SAME path that was summarised when complete is fed to all 5 summary command variants; each must fail, or - only when nothing but the gzip trailer is missing - reproduce the complete file's outputs exactly. In addition a real 2-chain run is crashed (ENOSPC) inside its final trace write and whatever is left at the output path is summarised.",
     "Assumes an interrupted write / truncation leaves a byte prefix of the file (single sequential gzip stream).",
     "DESIGN.md section 5 C20")
 
